@@ -6,6 +6,7 @@ import (
 	"encoding/hex"
 	"fmt"
 	"sort"
+	"strings"
 	"testing"
 
 	"github.com/folbricht/desync"
@@ -194,6 +195,7 @@ func TestSelf(t *testing.T) {
 
 	selfJudge(t)
 	selfProv(t)
+	selfCLIRule(t)
 
 	if c := content(Case{Fill: "text", Len: 10, Seed: 1}); len(c) != 10 {
 		selfFail(t, "content length %d, want 10", len(c))
@@ -314,5 +316,72 @@ func selfProv(t *testing.T) {
 	weird := ProvSpec{Kind: "nonsense", Src: "x", Wire: "y", SkipVerify: true, SrvSkipVerify: true, Touch: true, Frame: "z"}.norm()
 	if weird != (ProvSpec{Kind: "plain", Touch: true}) {
 		selfFail(t, "norm of a nonsense spec: %+v", weird)
+	}
+}
+
+// selfCLIRule: the lexical model of the documented matching rule reproduces the path rows of
+// desync's own table (cmd/desync/location_test.go), every spelling of the store matches every
+// other one (apart from the symbolic link), and the keys that name something else match nothing.
+func selfCLIRule(t *testing.T) {
+	yes := [][2]string{
+		{"/path", "/path/../path"}, {"//path", "//path"}, {"//path", "/path"}, {"./path", "./path"}, {"path", "path/"}, {"path/..", "."},
+		{"/path*", "/path/../path"}, {"/path*", "/path_1"}, {"/path/*", "/path/to"}, {"/path/*", "/path/to/"}, {"/path/*/", "/path/to/"}, {"/path/*/", "/path/to"},
+		{"/path/to/../*", "/path/another"}, {"/*", "/path"}, {"*", "path"}, {"/pat?", "/path"}, {"/pat?/?", "/path/1"}, {"path/*", "path/to"}, {"path/?", "path/1"}, {"?", "a"},
+	}
+	no := [][2]string{
+		{"/path", "path"}, {"/path/to", "path/to"}, {"/path/to", "/path/to/.."},
+		{"/path*", "/dir"}, {"/path*", "path"}, {"/path*", "/path/to"}, {"/path/*", "/path"}, {"/path/to/../*", "/path/to/another"}, {"/pat?", "/pat"}, {"/pat?", "/dir"},
+	}
+	for _, r := range yes {
+		if !ruleMatch(r[0], r[1], "/some/cwd") {
+			selfFail(t, "matching rule: %q must match %q", r[0], r[1])
+		}
+	}
+	for _, r := range no {
+		if ruleMatch(r[0], r[1], "/some/cwd") {
+			selfFail(t, "matching rule: %q must not match %q", r[0], r[1])
+		}
+	}
+	l := cliLayout{root: "/r", work: "/r/work", store: "/r/work/st"}
+	cwds := map[string]string{"work": l.work, "root": l.root, "store": l.store, "away": "/r/away"}
+	pairs := 0
+	for _, ks := range spellings {
+		for _, as := range spellings {
+			if as.key {
+				continue
+			}
+			for name, cwd := range cwds {
+				if (ks.cwd != "" && ks.cwd != name) || (as.cwd != "" && as.cwd != name) {
+					continue
+				}
+				pairs++
+				key, arg := ks.text(l), as.text(l)
+				got := ks.id != "none" && ruleMatch(key, arg, cwd)
+				want := ks.id != "none" && !strings.HasPrefix(ks.id, "miss-")
+				sym := strings.Contains(key, "lnk") != strings.Contains(arg, "lnk")
+				if sym && isGlob(key) {
+					continue // a pattern may match the name of the link as well
+				}
+				if sym {
+					want = false // not resolved
+					if ks.id != "none" && !strings.HasPrefix(ks.id, "miss-") && !ruleMatch(throughLink(key), throughLink(arg), cwd) {
+						selfFail(t, "spellings %s / %s (cwd %s) do not match once the link is resolved", ks.id, as.id, name)
+					}
+				}
+				if got != want {
+					selfFail(t, "spellings key %s=%q / argument %s=%q (cwd %s): rule says %v, want %v", ks.id, key, as.id, arg, cwd, got, want)
+				}
+			}
+		}
+	}
+	if pairs < 300 {
+		selfFail(t, "only %d spelling pairs", pairs)
+	}
+	n := CLICase{Cmd: "x", Key: "rel-deep", Arg: "rel"}.norm()
+	if n.Cmd != "chop" || n.Arg != "abs" || n.Cwd != "root" {
+		selfFail(t, "norm of a CLI case with conflicting working directories: %+v", n)
+	}
+	if n.norm() != n {
+		selfFail(t, "CLI norm is not idempotent")
 	}
 }
